@@ -18,6 +18,10 @@ type Hooks struct {
 	Now func() time.Time
 	// Inline makes TaskRunner.Go run its task synchronously on the caller's goroutine.
 	Inline bool
+	// IO is consulted at the entry of every file operation of sop's filesystem backend (after the
+	// scheduling point). A non-nil error makes the operation fail with it without executing; the hook may
+	// also terminate the process (crash plans), possibly after performing a partial write itself.
+	IO func(op, path string, data []byte, off int64) error
 }
 
 var cur atomic.Pointer[Hooks]
@@ -48,4 +52,41 @@ func Now() time.Time {
 func InlineTasks() bool {
 	h := cur.Load()
 	return h != nil && h.Inline
+}
+
+// IO is called by instrumented file operations: op is one of WriteFile, ReadFile, Remove, Stat, MkdirAll,
+// RemoveAll, ReadDir, truncate, create, append, remove, pwrite, pread.
+func IO(op, path string, data []byte, off int64) error {
+	h := cur.Load()
+	if h == nil {
+		return nil
+	}
+	if h.Point != nil {
+		class := "file"
+		if op == "pwrite" || op == "pread" || op == "open" {
+			class = "dio"
+		}
+		h.Point(class, op+" "+path)
+	}
+	if h.IO != nil {
+		return h.IO(op, path, data, off)
+	}
+	return nil
+}
+
+// Mutating reports whether op changes the disk.
+func Mutating(op string) bool {
+	switch op {
+	case "WriteFile", "Remove", "MkdirAll", "RemoveAll", "truncate", "create", "append", "remove", "pwrite":
+		return true
+	}
+	return false
+}
+
+// IOHook calls only the IO hook (no scheduling point); used by decorators that already yielded.
+func IOHook(op, path string, data []byte, off int64) error {
+	if h := cur.Load(); h != nil && h.IO != nil {
+		return h.IO(op, path, data, off)
+	}
+	return nil
 }
